@@ -24,6 +24,8 @@ REG_FIELDS = ('rd', 'rs1', 'rs2', 'rd_rs1')
 
 def factory_name(walker, pred):
     """Name of the outermost local function a predicate value was made by (for messages)."""
+    if pred[0] == 'obj':
+        return pred[1]
     fn, _ = walker.fn_of_value(pred) if pred[0] in ('lambda', 'closure') else (None, None)
     if fn is None:
         if pred[0] == 'callv' and pred[1][0] == 'closure':
@@ -41,6 +43,12 @@ def factory_name(walker, pred):
 def lift_predicate(walker, pred, facts, st=None):
     """(formula, factory name, function node) of a predicate value."""
     fname = factory_name(walker, pred)
+    if pred[0] == 'obj' and walker.method_of_obj(pred, '__call__') is not None:
+        fn = walker.method_of_obj(pred, '__call__')
+        v = walker.eval_call(pred, (INST, POS, ENV), (), st or PathState())
+        if v is None:
+            raise AnalysisError('predicate {}: cannot be evaluated as a single effect-free expression'.format(fname))
+        return to_formula(v, facts, fname), fname, fn
     if pred[0] not in ('lambda', 'closure'):
         raise AnalysisError('compression predicate {} is not a function value the analysis can apply'.format(show(pred)[:80]))
     fn, _ = walker.fn_of_value(pred)
